@@ -234,8 +234,8 @@ func c07Direction(r *R, f *core.FSM) {
 	r.c.Stats["channelState_field_accessors"] = len(acc)
 	r.c.Floor("C07.4", len(acc), 15, "single-field accessors of channelState")
 	for _, m := range []struct {
-		method      string
-		wantProg    bool
+		method   string
+		wantProg bool
 	}{{"DataSent", false}, {"DataQueued", true}, {"DataReceived", true}} {
 		fn := r.fn("C07.4", "channels", "Channels", m.method)
 		site := r.one("C07.4", fn, "(*channels.Channels).fireProgressEvent")
